@@ -269,12 +269,36 @@ func checkC26(c *Ctx) *report.Result {
 				}
 			}
 			r.Ob("L5", isDisplay && guard, "frame result is the display's close request", c.pos(ret), fmt.Sprintf("returned call on %s, guarded by display != nil: %v", recvTypeKey(callee), guard))
+			// the display routine answers, on every path, with the window's own close query (a call into the
+			// host library), never with a constant or a cached value
+			if isDisplay && callee != nil {
+				nret := 0
+				for _, db := range callee.Blocks {
+					dret, ok := db.Instrs[len(db.Instrs)-1].(*ssa.Return)
+					if !ok || len(dret.Results) != 1 {
+						continue
+					}
+					nret++
+					okq := false
+					if q, isCall := dret.Results[0].(*ssa.Call); isCall {
+						if qf := q.Call.StaticCallee(); qf != nil && !isRepoFn(qf) && qf.Name() == "ShouldClose" {
+							okq = true
+						}
+					}
+					r.Ob("L5", okq, "display frame routine returns the window's close query", c.pos(dret), "every return of the display's frame routine must be the host window's ShouldClose(); a constant or cached answer hides a close request from Run")
+				}
+				if nret == 0 {
+					r.Fail("unresolved", "L5", "display frame routine", "", "no return found")
+				}
+			}
 		default:
 			r.Ob("L5", false, "frame result", c.pos(ret), "unexpected result expression")
 		}
 	}
 	// ---- R1
 	c.checkRun(r, run, fn)
+	r.Rule("L-rtc", "the cartridge clock advances on every call of its step unless halted by its own halt bit (rule T-tick of C10 re-stated)")
+	adopt(r, c.sibling("C10"), map[string]string{"T-tick": "L-rtc"}, "a clock step that returns early for another reason does not advance the cartridge clock once per machine cycle")
 	return r
 }
 
